@@ -66,7 +66,7 @@ def chain_of(prepared, seq):
 _wit_cache = {}
 
 
-def synth(S, rx, dom, prepared, seqs, extra=()):
+def synth(S, rx, dom, prepared, seqs, extra=(), variant=0):
     """model string satisfying every regex of the chains.  First try: one z3 membership query per regex (cached) and
     concatenation of the witnesses (search semantics makes the concatenation satisfy every unanchored regex); the result is
     validated on the real re objects; if that fails the joint conjunction is given to z3."""
@@ -78,11 +78,18 @@ def synth(S, rx, dom, prepared, seqs, extra=()):
                 regs.append(r)
     parts = []
     for r in regs:
-        if r.pattern not in _wit_cache:
-            L = rx.fullmatch_lang(re.compile(r.pattern.lstrip("^"), r.flags)) if True else None
-            v, m = S.check(z3.InRe(S.x, dom), z3.Length(S.x) <= 24, z3.InRe(S.x, L))
-            _wit_cache[r.pattern] = rx.z3_unescape(m) if v == "sat" else None
-        parts.append((r, _wit_cache[r.pattern]))
+        wl = _wit_cache.setdefault(r.pattern, [])
+        while len(wl) <= variant:
+            # next distinct witness of this regex (earlier ones are blocked); None once the language is exhausted
+            if wl and wl[-1] is None:
+                wl.append(None)
+                continue
+            L = rx.fullmatch_lang(re.compile(r.pattern.lstrip("^"), r.flags))
+            cons = [z3.InRe(S.x, dom), z3.Length(S.x) <= 24, z3.InRe(S.x, L)] + [S.x != z3.StringVal(w) for w in wl if w is not None]
+            v, m = S.check(*cons)
+            wl.append(rx.z3_unescape(m) if v == "sat" else None)
+        w = wl[variant] if wl[variant] is not None else next((x for x in wl if x is not None), None)
+        parts.append((r, w))
     if all(w is not None for _, w in parts) and not extra:
         anchored = [w for r, w in parts if r.pattern.startswith("^")]
         rest = [w for r, w in parts if not r.pattern.startswith("^")]
@@ -186,8 +193,14 @@ def z_models():
     bad = 0
     unknown = []
     _models_seen = []
-    for seq in seqs[lo:hi]:
-        r, model = synth(S, rx, dom, prepared, [seq])
+    nvar = 1 if rt.TIER == "quick" else 3
+    work = [(seq, v) for seq in seqs[lo:hi] for v in range(nvar)]
+    done = set()
+    for (seq, variant) in work:
+        r, model = synth(S, rx, dom, prepared, [seq], variant=variant)
+        if r == "sat" and (seq, model) in done:
+            continue
+        done.add((seq, model))
         _models_seen.append(model if r == "sat" else None)
         if r != "sat":
             if r == "unsat":
